@@ -29,12 +29,20 @@ class verb(Command):
     def invoke(self, tex):
         """ Parse for matching delimiters """
         self.ownerDocument.context.push(self)
-        self.parse(tex)
+        # The delimiter must already be read verbatim: it may be a character
+        # that is special otherwise (# $ % & ~)
         self.ownerDocument.context.setVerbatimCatcodes()
+        # Blanks after the control word are skipped as usual
+        for tok in tex.itertokens():
+            if not tok.strip():
+                continue
+            tex.pushToken(tok)
+            break
+        self.parse(tex)
         # See what the delimiter is
         for endpattern in tex:
             self.delimiter = endpattern
-            if isinstance(endpattern, bgroup):
+            if isinstance(endpattern, bgroup) or endpattern == '{':
                 self.delimiter = endpattern = Other('}')
             break
         tokens = [self, endpattern]
